@@ -3,15 +3,14 @@
 Specification: spec/FilterSel.tla (EXTENDS Filter) and spec/MC_FilterSel.tla.
   reference     RefSat3 / RefRowSat / Sel (three-valued row selection), RefCond (grammar of
                 well-formed filter conditions; everything else must raise), Expected.
-  transcription ParseCond/ParseOp (filters.py:39-128), BuildCondition/Combine (filters.py:131-201),
-                ReadVerify/ReadNoVerify/ScanTable/ScanBatches/IterFileBatches (transaction.py:897-1186).
-  theorems      EngineMatchesReference, ParserConforms, StatsArms, ApiConforms (repaired model),
-                ApiConformsModuloKnown (code as it is: deviations confined to defects D1, D2).
+  transcription ParseCond/CheckValueRaises/ParseOp (filters.py:39-165), BuildCondition/Combine (filters.py:168-238),
+                ReadVerify/ReadNoVerify/ScanTable/ScanBatches/IterFileBatches (transaction.py:917-1218).
+  theorems      EngineMatchesReference, ParserConforms, StatsArms, ApiConforms (C12 itself).
+                The code as it is = StatsPushdown FALSE, ValidateFirst TRUE (since /repo 2813326, e9269c1).
 
-1. TLC: (a) the model of the code as it is satisfies every theorem and deviates from C12 only in the
-   two characterised defect classes, and exports the complete case table (layout, filter, reference row
-   set; filter-condition shapes with their reference meaning); (b) the repaired model satisfies C12
-   outright; (c) anti-vacuity: ApiConforms FAILS with either defect modelled.
+1. TLC: (a) the model of the code as it is satisfies every theorem incl. ApiConforms and exports the complete
+   case table (layout, filter, reference row set; filter-condition shapes with their reference meaning);
+   (b) anti-vacuity: ApiConforms FAILS on each model of the code before the two repairs.
 2. Binding spec -> code.  Every exported case is concretised per column type (harness/values.py),
    written through the real append path and read back through EVERY read API and option
    (scan, scan(parallel=2), scan(parallel=True), scan_batches(1|2|1000), iter_records, each with
@@ -27,6 +26,7 @@ from __future__ import annotations
 
 import collections
 import concurrent.futures
+import concurrent.futures.process
 import json
 import multiprocessing
 import os
@@ -41,15 +41,17 @@ from ..values import ALL_TYPES, FLOAT_TYPES, NAN, NULL, conc, row_key
 
 LEVEL = "model_checking"
 
-INVS_ASIS = ["EngineMatchesReference", "EngineRowsMatchReference", "SelAgreesWithFilterSelect", "StatsArms",
-             "ParserConforms", "ApiConformsModuloKnown"]
-INVS_REPAIRED = ["ParserConforms", "ApiConforms"]
+INVS_FAITHFUL = ["EngineMatchesReference", "EngineRowsMatchReference", "SelAgreesWithFilterSelect", "StatsArms",
+                 "ParserConforms", "ApiConforms"]
 
 # every type once as column a and once as column b
 QUICK_PAIRS = [("boolean", "double"), ("int", "float"), ("long", "string"), ("float", "long"), ("double", "boolean"),
                ("date", "timestamp"), ("time", "int"), ("timestamp", "date"), ("string", "time")]
 EXTRA_PAIRS = [("long", "double"), ("string", "double"), ("double", "float"), ("timestamp", "float"), ("int", "long"),
                ("string", "string"), ("date", "double"), ("time", "float"), ("boolean", "boolean")]
+
+# thorough: the complete (file x filter) grid is executed for these pairs, a (larger) sample for the others
+FULL_GRID_PAIRS = [("boolean", "double"), ("int", "float"), ("float", "long"), ("long", "string")]
 
 # (api, kwargs): the seven read programs; each runs with verify_checksums True and False
 VARIANTS: List[Tuple[str, Dict[str, Any]]] = [
@@ -317,7 +319,7 @@ def _judge_filter(
         return
     # NaN rows: SQL gives NaN no single meaning; the reference is IEEE.  If EVERY read program deviates
     # from it in the same way, and only on NaN rows, the APIs agree on another NaN semantics: note, not violation.
-    if n_ok == 0 and all(b["cls"] == "nan" for b in bad) and len({id(b["got"]) for b in bad}) == len(runs) and len(nan_only_shapes) == 1:
+    if n_ok == 0 and all(b["cls"] == "nan" for b in bad) and len(nan_only_shapes) == 1:
         out["notes"]["nan_semantics_drift"] = out["notes"].get("nan_semantics_drift", 0) + 1
         return
     for b in bad:
@@ -334,9 +336,9 @@ def _kwtxt(b: Dict[str, Any]) -> str:
 
 
 def _runs_for(projs: List[Optional[List[str]]], k: int, full: bool) -> List[Tuple[str, Dict[str, Any], bool, Optional[List[str]]]]:
-    """The 14 (api, kwargs, verify) programs; `full`: each with every projection, otherwise each program
-    with columns=None on even turns / one rotating projection (so that across filters every program meets
-    every projection, with and without)."""
+    """The 14 (api, kwargs, verify) programs; `full`: each with every exported projection (columns=None is
+    one of them); otherwise each program with ONE projection, rotating with the program and the filter index,
+    so that across the filters of a table every program meets every projection, with and without."""
     runs = []
     j = 0
     for api, kw in VARIANTS:
@@ -366,7 +368,7 @@ def _job_engine(job: Dict[str, Any]) -> Dict[str, Any]:
     files: List[List[Dict[str, int]]] = job["files"]
     filters: List[List[Dict[str, Any]]] = job["filters"]
     sel: Dict[str, List[int]] = job["sel"]            # "fi,ei" -> reference row indices of file fi for filter ei
-    lost: Dict[str, List[int]] = job["lost"]          # rows the as-is model predicts scan(noverify) loses
+    lost: Dict[str, List[int]] = job["lost"]          # rows the model predicts scan(noverify) loses (none for the code as it is)
     projs = job["projs"]
     r = rng(job["seed"], "c12-engine", types["a"], types["b"])
     t = _Table(job["scratch"], types, files)
@@ -378,7 +380,7 @@ def _job_engine(job: Dict[str, Any]) -> Dict[str, Any]:
             before = len(out["violations"])
             _judge_filter(t, exprs, fd, expected, runs, out,
                           {"mode": "engine", "types": types, "files": files})
-            # model drift: the as-is transcription predicts a NaN loss on scan(noverify) that did not show
+            # model drift: the transcription predicts a row loss on scan(noverify) that did not show, or vice versa
             predicted = any(lost.get(f"{fi},{ei}") for fi in range(len(files)))
             seen = any(s.split(":")[0] in ("nan-row-lost", "zero-row-lost") and ":scan:noverify:" in s for s, _, _ in out["violations"][before:])
             if predicted != seen:
@@ -414,12 +416,32 @@ def _job_layouts(job: Dict[str, Any]) -> Dict[str, Any]:
     return out
 
 
-def _conc_cond(shape: Dict[str, Any], t: str, variant: int = 0) -> List[Any]:
-    """Concrete Python realisations of an abstract filter-condition shape."""
+_CANON = {sp.lower(): op for op, sps in ALIASES.items() for sp in sps}
+
+
+def _canon(shape: Dict[str, Any]) -> str:
+    """Canonical operator of a pair shape ("?" for unknown spellings, "nonstring" for non-strings)."""
+    if not shape["opIsStr"]:
+        return "nonstring"
+    return _CANON.get(shape["op"].lower(), "?")
+
+
+def _conc_cond(shape: Dict[str, Any], t: str) -> List[Any]:
+    """Concrete Python realisations of an abstract filter-condition shape for a column of type `t`
+    ([] when the shape cannot be realised for that type: a "strscalar" is a str, which only a string
+    column compares with; conversely every scalar of a string column is a str, so the "non-iterable
+    scalar" operand of a set operator does not exist there)."""
     def cv(a: int) -> Any:
         return conc(t, a)
 
     k, vk, xs = shape["k"], shape["vk"], shape["xs"]
+    if vk == "strscalar":
+        if t != "string":
+            return []
+        vk = "scalar"
+    elif vk == "scalar" and t == "string":
+        if k == "pair" and _canon(shape) in ("in", "not_in"):
+            return []
     if k == "bare":
         if vk == "scalar":
             return [cv(xs[0])]
@@ -446,11 +468,12 @@ def _conc_cond(shape: Dict[str, Any], t: str, variant: int = 0) -> List[Any]:
 
 
 def _shape_class(shape: Dict[str, Any]) -> str:
+    """Class of a condition shape by MEANING (canonical operator, operand kind), not by spelling."""
     if shape["k"] == "bare":
         return f"bare-{shape['vk']}"
     if not shape["opIsStr"]:
         return "nonstring-op"
-    return f"pair:{shape['op']}:{shape['vk']}{len(shape['xs'])}"
+    return f"pair:{_canon(shape)}:{shape['vk']}{len(shape['xs'])}"
 
 
 def _job_malformed(job: Dict[str, Any]) -> Dict[str, Any]:
@@ -466,6 +489,8 @@ def _job_malformed(job: Dict[str, Any]) -> Dict[str, Any]:
                 conds_b = [None] if pc["condB"]["k"] == "absent" else _conc_cond(pc["condB"], types["b"])
                 want = {(f, rr) for f, rr in pc["sel"]}
                 expected = [row for fi, ri, row in t.rows if (fi, ri) in want]
+                uwant = {(f, rr) for f, rr in pc["understoodSel"]}
+                understood = [row for fi, ri, row in t.rows if (fi, ri) in uwant]
                 cls = _shape_class(pc["cond"]) + ("" if pc["condB"]["k"] == "absent" else "&" + _shape_class(pc["condB"]))
                 for ca in conds_a:
                     for cb in conds_b:
@@ -483,7 +508,12 @@ def _job_malformed(job: Dict[str, Any]) -> Dict[str, Any]:
                                 if pc["refMalformed"]:
                                     if kind == "raise":
                                         continue
-                                    if res:
+                                    if pc["strAsSet"]:
+                                        # a str operand of in / not_in is iterated character by character
+                                        sig = f"str-operand-as-value-set:{api}"
+                                        what = (f"answered the question for the set of its characters ({len(res)} row(s))"
+                                                if _bag(res) == _bag(understood) else f"returned {len(res)} row(s)")
+                                    elif res:
                                         sig = f"malformed-reinterpreted:{api}:{cls}"
                                         what = f"returned {len(res)} row(s) instead of raising"
                                     else:
@@ -646,7 +676,7 @@ def _parser_differential(ctx: Ctx, pcases: List[Dict[str, Any]]) -> Tuple[int, i
 
     from datashard.filters import parse_filter_dict, to_pyarrow_compute_expression
 
-    probe = pa.table({"a": pa.array([0, None, 5], pa.int64())})
+    probes = {"long": pa.table({"a": pa.array([0, None, 5], pa.int64())}), "string": pa.table({"a": pa.array([" ", None, "9"], pa.string())})}
     seen = set()
     n = drift = 0
     for pc in pcases:
@@ -657,7 +687,8 @@ def _parser_differential(ctx: Ctx, pcases: List[Dict[str, Any]]) -> Tuple[int, i
             continue
         seen.add(key)
         shape = pc["cond"]
-        for cond in _conc_cond(shape, "long"):
+        ptype = "string" if shape["vk"] == "strscalar" else "long"
+        for cond in _conc_cond(shape, ptype):
             n += 1
             stage = "parse"
             parsed = None
@@ -666,14 +697,18 @@ def _parser_differential(ctx: Ctx, pcases: List[Dict[str, Any]]) -> Tuple[int, i
                 stage = "build"
                 ce = to_pyarrow_compute_expression(parsed)
                 stage = "exec"
-                probe.filter(ce)
+                probes[ptype].filter(ce)
                 stage = "ok"
             except Exception:  # noqa: BLE001
                 pass
             ctx.count_case(("parser", key, repr(cond)), nontrivial=True)
             cls = _shape_class(shape)
             if pc["refMalformed"]:
-                if stage == "ok":
+                if stage == "ok" and pc["strAsSet"]:
+                    ctx.violation("str-operand-as-value-set:parser",
+                                  f"the str operand of {cond!r} is not rejected: parse_filter_dict keeps it and _build_condition iterates its characters",
+                                  {"mode": "parser", "cond": repr(cond), "shape": shape})
+                elif stage == "ok":
                     ctx.violation(f"parser-accepts-malformed:{cls}",
                                   f"the malformed filter condition {cond!r} is accepted by parse/build/evaluate as {[(e.op.name, e.value) for e in parsed]}",
                                   {"mode": "parser", "cond": repr(cond), "shape": shape})
@@ -697,8 +732,8 @@ def _parser_differential(ctx: Ctx, pcases: List[Dict[str, Any]]) -> Tuple[int, i
                 # the reference expressions are over abstract values: concretise them for long
                 want = [{"col": x["col"], "op": x["op"],
                          "lit": ([0] if x["op"] in ("is_null", "is_not_null") else
-                                 sorted(NULL if v == NULL else conc("long", v) for v in x["lit"]) if x["op"] in ("in", "not_in") else
-                                 [NULL if v == NULL else conc("long", v) for v in x["lit"]])} for x in pc["refExprs"]]
+                                 sorted(NULL if v == NULL else conc(ptype, v) for v in x["lit"]) if x["op"] in ("in", "not_in") else
+                                 [NULL if v == NULL else conc(ptype, v) for v in x["lit"]])} for x in pc["refExprs"]]
                 if got != want:
                     ctx.violation(f"parser-misreads:{cls}", f"filter condition {cond!r} is parsed as {got}, the reference grammar says {want}",
                                   {"mode": "parser", "cond": repr(cond), "shape": shape, "got": got, "want": want})
@@ -730,19 +765,28 @@ def _plan_engine(ctx: Ctx, quick: bool, single: List[Dict[str, Any]], projs: Lis
         r = rng(ctx.seed, "c12-plan", ta, tb)
         ok_files = [k for k in fkeys if _case_concretisable([files[k]], [], types)]
         ok_filts = [k for k in ekeys if _case_concretisable([], filts[k], types)]
+        # files: the empty file, the 12-row file (every row kind: one read covers all row-level cases),
+        # the statistics-sensitive files (one distinct value + NaN/NULL), plus a seeded sample
+        core = [k for k in ok_files if not files[k] or k == big]
+        sens = [k for k in ok_files if k not in core and len(files[k]) == 2 and
+                any(len({row[c] for row in files[k]} - {NULL, NAN}) == 1 and {row[c] for row in files[k]} & {NULL, NAN} for c in ("a", "b"))]
+        rest = [k for k in ok_files if k not in core and k not in sens]
+        special = [k for k in ok_filts if _expr_special(filts[k]) and filts[k]]
+        plain = [k for k in ok_filts if k not in special and filts[k]]
+        chunks = 1
         if quick:
-            # files: the empty file, the 12-row file (every row kind: one read covers all row-level cases),
-            # the statistics-sensitive files (one distinct value + NaN/NULL), plus a seeded sample
-            core = [k for k in ok_files if not files[k] or k == big]
-            sens = [k for k in ok_files if k not in core and len(files[k]) == 2 and
-                    any(len({row[c] for row in files[k]} - {NULL, NAN}) == 1 and {row[c] for row in files[k]} & {NULL, NAN} for c in ("a", "b"))]
-            rest = [k for k in ok_files if k not in core and k not in sens]
             chosen_f = core + r.sample(sens, min(4, len(sens))) + r.sample(rest, min(3, len(rest)))
-            special = [k for k in ok_filts if _expr_special(filts[k]) and filts[k]]
-            plain = [k for k in ok_filts if k not in special and filts[k]]
             chosen_e = [_ekey([])] + r.sample(special, min(21, len(special))) + r.sample(plain, min(4, len(plain)))
+        elif (ta, tb) in FULL_GRID_PAIRS:
+            # thorough, full grid: every file of <= 2 rows, the 12-row file, a sample of the 3-row files; every filter
+            small = [k for k in ok_files if len(files[k]) <= 2 or k == big]
+            three = [k for k in ok_files if len(files[k]) == 3]
+            chosen_f = small + r.sample(three, min(12, len(three)))
+            chosen_e = ok_filts
+            chunks = 6
         else:
-            chosen_f, chosen_e = ok_files, ok_filts
+            chosen_f = core + r.sample(sens, min(6, len(sens))) + r.sample(rest, min(4, len(rest)))
+            chosen_e = [_ekey([])] + r.sample(special, min(50, len(special))) + r.sample(plain, min(10, len(plain)))
         flist = [files[k] for k in chosen_f]
         elist = [filts[k] for k in chosen_e]
         sel, lost = {}, {}
@@ -755,8 +799,12 @@ def _plan_engine(ctx: Ctx, quick: bool, single: List[Dict[str, Any]], projs: Lis
                     sel[f"{fi},{ei}"] = rows
                 if c["lost"][fckey]:
                     lost[f"{fi},{ei}"] = [rr for _, rr in c["lost"][fckey]]
-        jobs.append({"kind": "engine", "types": types, "files": flist, "filters": elist, "sel": sel, "lost": lost, "projs": projs,
-                     "seed": ctx.seed, "scratch": scratch, "full": False})
+        for ch in range(chunks):
+            idx = [ei for ei in range(len(elist)) if ei % chunks == ch]
+            remap = {ei: n for n, ei in enumerate(idx)}
+            sub = lambda d: {f"{k.split(',')[0]},{remap[int(k.split(',')[1])]}": v for k, v in d.items() if int(k.split(',')[1]) in remap}  # noqa: E731
+            jobs.append({"kind": "engine", "types": types, "files": flist, "filters": [elist[ei] for ei in idx], "sel": sub(sel), "lost": sub(lost),
+                         "projs": projs, "seed": ctx.seed + ch, "scratch": scratch, "full": False})
     return jobs
 
 
@@ -771,22 +819,27 @@ def _plan_layouts(ctx: Ctx, quick: bool, multi: List[Dict[str, Any]], projs: Lis
         types = {"a": ta, "b": tb}
         r = rng(ctx.seed, "c12-layout-plan", ta, tb)
         ok = [k for k in lkeys if _case_concretisable(json.loads(k), [], types)]
+        empty = [k for k in ok if json.loads(k) == []]
+        three = [k for k in ok if len(json.loads(k)) == 3]
+        two = [k for k in ok if len(json.loads(k)) == 2]
+        full = False
         if quick:
-            empty = [k for k in ok if json.loads(k) == []]
-            three = [k for k in ok if len(json.loads(k)) == 3]
-            two = [k for k in ok if len(json.loads(k)) == 2]
             chosen = empty + r.sample(three, min(2, len(three))) + r.sample(two, min(1, len(two)))
             nf = 4
+        elif pi == 1:
+            chosen, nf = ok, 10 ** 6                       # every layout, every filter of the reduced set (int/float)
+        elif pi == 0:
+            chosen, nf, full = empty + r.sample(three, 5) + r.sample(two, 3), 10 ** 6, True     # every projection with every program
         else:
-            chosen = ok if pi < 3 else [k for k in ok if json.loads(k) == []] + r.sample(ok, min(30, len(ok)))
-            nf = 10 ** 6
+            chosen, nf = empty + r.sample(three, min(12, len(three))) + r.sample(two, min(6, len(two))), 10 ** 6
         layouts = []
         for k in chosen:
             cs = [c for c in by_layout[k] if _case_concretisable([], c["exprs"], types)]
             if len(cs) > nf:
                 cs = r.sample(cs, nf)
             layouts.append((json.loads(k), [(c["exprs"], c["sel"]) for c in cs]))
-        jobs.append({"kind": "layouts", "types": types, "layouts": layouts, "projs": projs, "seed": ctx.seed, "scratch": scratch, "full": not quick and pi < 2})
+        for i in range(0, len(layouts), 20):
+            jobs.append({"kind": "layouts", "types": types, "layouts": layouts[i:i + 20], "projs": projs, "seed": ctx.seed + i, "scratch": scratch, "full": full})
     return jobs
 
 
@@ -799,12 +852,14 @@ def _plan_malformed(ctx: Ctx, quick: bool, pcases: List[Dict[str, Any]], scratch
     for pc in pcases:
         by_layout.setdefault(json.dumps(pc["files"], sort_keys=True), []).append(pc)
     jobs = []
-    type_sets = [{"a": "long", "b": "double"}] if quick else [{"a": "long", "b": "double"}, {"a": "string", "b": "float"}, {"a": "date", "b": "timestamp"}]
+    type_sets = [{"a": "long", "b": "double"}, {"a": "string", "b": "float"}] + ([] if quick else [{"a": "date", "b": "timestamp"}])
     for ti, types in enumerate(type_sets):
-        r = rng(ctx.seed, "c12-malformed", types["a"])
         layouts = []
         for lk in sorted(by_layout):
             cs = by_layout[lk]
+            if quick and ti > 0:
+                # quick: the string column only adds the shapes whose operand is a str, on the layouts with rows
+                cs = [pc for pc in cs if pc["cond"]["vk"] == "strscalar" and len(json.loads(lk)) == 2]
             if quick or ti > 0:
                 reps: Dict[str, Dict[str, Any]] = {}
                 for pc in sorted(cs, key=lambda x: digest((x["cond"], x["condB"], ctx.seed))):
@@ -813,7 +868,8 @@ def _plan_malformed(ctx: Ctx, quick: bool, pcases: List[Dict[str, Any]], scratch
                            json.dumps(pc["condB"], sort_keys=True), pc["cond"]["xs"] if pc["grp"] == "two" else None)
                     reps.setdefault(json.dumps(cls), pc)
                 cs = list(reps.values())
-            layouts.append((json.loads(lk), cs))
+            if cs:
+                layouts.append((json.loads(lk), cs))
         # split over a few jobs
         variants = VARIANTS if not quick else [VARIANTS[0], VARIANTS[4], VARIANTS[6]]
         for lay in layouts:
@@ -829,43 +885,47 @@ def _consts(sp: bool, vf: bool, mr: int, fp: bool) -> Dict[str, Any]:
     return {"StatsPushdown": sp, "ValidateFirst": vf, "MaxRows": mr, "FullProj": fp}
 
 
-def _tlc_asis(ctx: Ctx, quick: bool, out: str) -> None:
-    """The model of the code as it is: all theorems, deviations from C12 confined to the characterised
-    defects; exports the case table."""
+def _tlc_faithful(ctx: Ctx, quick: bool, out: str) -> None:
+    """The model of the code as it is (StatsPushdown = FALSE, ValidateFirst = TRUE): every theorem incl. C12
+    itself (ApiConforms); exports the case table."""
     max_rows = 2 if quick else 3
-    cfg = tlc.make_cfg(spec="Spec", constants=_consts(True, False, max_rows, not quick), invariants=INVS_ASIS, postcondition="Export")
+    cfg = tlc.make_cfg(spec="Spec", constants=_consts(False, True, max_rows, not quick), invariants=INVS_FAITHFUL, postcondition="Export")
     ra = tlc.run_tlc("MC_FilterSel", cfg, env={"VERIF_OUT": out}, timeout_s=1500, workers=6 if quick else 8,
-                     label=f"MC_FilterSel code-as-is (StatsPushdown, ~ValidateFirst) MaxRows={max_rows}")
+                     label=f"MC_FilterSel code as it is (~StatsPushdown, ValidateFirst) MaxRows={max_rows}")
     ctx.add_tlc(ra)
     if not ra.ok:
         ctx.violation("model:" + ",".join(ra.violated or ["error"]),
                       f"TLC: {ra.violated} violated in the model of the code as it is (FilterSel.tla transcriptions)", ra.error_trace[:4000])
-        raise MachineryError("the model of the code as it is no longer satisfies its theorems; case table not usable")
+        raise MachineryError("the model of the code as it is does not satisfy its theorems; case table not usable")
 
 
 def _tlc_companions(quick: bool) -> Dict[str, Any]:
-    """(b) the repaired model satisfies C12 outright; (c) ApiConforms must FAIL with either defect modelled.
+    """Anti-vacuity: ApiConforms must FAIL on each model of the code as it was before the repairs
+    (2813326: statistics pushdown, e9269c1: late validation / lenient parser).  thorough also re-proves the
+    characterisation of those defects (ApiConformsModuloKnown) on the pre-repair model.
     Runs in a background thread while the binding executes."""
-    max_rows = 2 if quick else 3
-    cfg = tlc.make_cfg(spec="Spec", constants=_consts(False, True, max_rows, not quick), invariants=INVS_REPAIRED)
-    rr = tlc.run_tlc("MC_FilterSel", cfg, timeout_s=1500, workers=3 if quick else 8, label=f"MC_FilterSel repaired model MaxRows={max_rows}")
     fails = []
-    for name, sp, vf in (("both defects", True, False), ("only D2 (late validation)", False, False), ("only D1 (statistics pushdown)", True, True)):
+    for name, sp, vf in (("both pre-repair defects", True, False), ("only late validation / lenient parser (pre-e9269c1)", False, False),
+                         ("only statistics pushdown (pre-2813326)", True, True)):
         cfg = tlc.make_cfg(spec="Spec", constants=_consts(sp, vf, 2, False), invariants=["ApiConforms"])
         fails.append((name, tlc.run_tlc("MC_FilterSel", cfg, timeout_s=600, workers=2, label=f"MC_FilterSel {name} (must fail)")))
-    return {"repaired": rr, "fails": fails}
+    charac = None
+    if not quick:
+        cfg = tlc.make_cfg(spec="Spec", constants=_consts(True, False, 2, False), invariants=["ParserConforms", "StatsArms", "ApiConformsModuloKnown"])
+        charac = tlc.run_tlc("MC_FilterSel", cfg, timeout_s=900, workers=4, label="MC_FilterSel pre-repair model: deviations confined to D1-D3")
+    return {"fails": fails, "charac": charac}
 
 
 def _check_companions(ctx: Ctx, comp: Dict[str, Any]) -> None:
-    rr = comp["repaired"]
-    ctx.add_tlc(rr)
-    if not rr.ok:
-        raise MachineryError(f"the repaired model does not satisfy C12: {rr.violated}\n{rr.error_trace[:2000]}")
     for name, res in comp["fails"]:
         if "ApiConforms" not in res.violated:
             raise MachineryError(f"anti-vacuity: ApiConforms should fail with {name} modelled, but TLC reports {res.violated or 'no violation'}")
-    ctx.cov["anti_vacuity"] = ("ApiConforms fails in TLC with both defects, with only D1 and with only D2 modelled; "
-                               "holds on the repaired model (StatsPushdown=FALSE, ValidateFirst=TRUE)")
+    ctx.cov["anti_vacuity"] = ("ApiConforms fails in TLC on the pre-repair models (statistics pushdown; late validation / lenient parser; both); "
+                               "it holds on the model of the code as it is (StatsPushdown=FALSE, ValidateFirst=TRUE)")
+    if comp["charac"] is not None:
+        if not comp["charac"].ok:
+            raise MachineryError(f"the pre-repair model deviates from C12 outside the characterised defects: {comp['charac'].violated}")
+        ctx.add_tlc(comp["charac"])
 
 
 def _collect(ctx: Ctx, res: Dict[str, Any]) -> None:
@@ -891,7 +951,7 @@ def run(ctx: Ctx) -> None:
     scratch = scratch_dir("c12")
     out = os.path.join(scratch, "cases.ndjson")
     t0 = time.time()
-    _tlc_asis(ctx, quick, out)
+    _tlc_faithful(ctx, quick, out)
     t_tlc = time.time() - t0
     bg = concurrent.futures.ThreadPoolExecutor(max_workers=1)
     companions = bg.submit(_tlc_companions, quick)
@@ -911,7 +971,7 @@ def run(ctx: Ctx) -> None:
     pairs = QUICK_PAIRS if quick else QUICK_PAIRS + EXTRA_PAIRS
     jobs: List[Dict[str, Any]] = []
     jobs += _plan_engine(ctx, quick, single, projs, scratch, pairs)
-    jobs += _plan_layouts(ctx, quick, multi, projs, scratch, pairs if quick else pairs[:9])
+    jobs += _plan_layouts(ctx, quick, multi, projs, scratch, pairs if quick else pairs[:7])
     jobs += _plan_malformed(ctx, quick, pcases, scratch)
     jobs.append({"kind": "extension", "scratch": scratch})
     # biggest first
@@ -919,14 +979,34 @@ def run(ctx: Ctx) -> None:
 
     nproc = int(os.environ.get("VERIF_C12_PROCS", "4" if quick else "8"))
     mp = multiprocessing.get_context("spawn")
-    with concurrent.futures.ProcessPoolExecutor(max_workers=nproc, mp_context=mp) as pool:
-        futs = [pool.submit(_run_job, j) for j in jobs]
-        n_parser, parser_drift = _parser_differential(ctx, pcases)     # meanwhile, in this process
-        results = [f.result() for f in futs]
+    results: List[Any] = [None] * len(jobs)
+    pending = list(range(len(jobs)))
+    n_parser = parser_drift = -1
+    for attempt in range(3):
+        # a worker that is killed from outside (other checks run on this machine) breaks the whole pool:
+        # the unfinished jobs are run again in a fresh pool
+        try:
+            with concurrent.futures.ProcessPoolExecutor(max_workers=nproc, mp_context=mp) as pool:
+                futs = {pool.submit(_run_job, jobs[i]): i for i in pending}
+                if n_parser < 0:
+                    n_parser, parser_drift = _parser_differential(ctx, pcases)     # meanwhile, in this process
+                for f in concurrent.futures.as_completed(futs):
+                    try:
+                        results[futs[f]] = f.result()
+                    except concurrent.futures.process.BrokenProcessPool:
+                        pass
+        except concurrent.futures.process.BrokenProcessPool:
+            pass
+        pending = [i for i in range(len(jobs)) if results[i] is None]
+        if not pending:
+            break
+        ctx.cov["worker_pool_restarts"] = attempt + 1
+    if pending:
+        raise MachineryError(f"{len(pending)} worker job(s) could not be completed (worker processes were terminated three times)")
     t_bind = time.time() - t0 - t_tlc
     _check_companions(ctx, companions.result())
     bg.shutdown()
-    ctx.cov["phase_wall_s"] = {"tlc_asis_export": round(t_tlc, 1), "binding": round(t_bind, 1), "total": round(time.time() - t0, 1),
+    ctx.cov["phase_wall_s"] = {"tlc_model_export": round(t_tlc, 1), "binding": round(t_bind, 1), "total": round(time.time() - t0, 1),
                                "worker_cpu_s_by_kind": {}}
     for job, res in zip(jobs, results):
         k = ctx.cov["phase_wall_s"]["worker_cpu_s_by_kind"]
@@ -980,13 +1060,25 @@ def replay(ctx: Ctx, path: str) -> None:
     try:
         if p["mode"] == "malformed":
             fd = eval(p["filter"], {"nan": float("nan"), "inf": float("inf"), "datetime": __import__("datetime")})  # noqa: S307 - our own repr
-            print("filter", fd, "->", _call(t.tbl, p["api"], p["kwargs"], fd, None, p["verify_checksums"]))
+            kind, res = _call(t.tbl, p["api"], p["kwargs"], fd, None, p["verify_checksums"])
+            print("filter", fd, "->", kind, res)
+            ctx.count_traces(1)
+            if rec["signature"].startswith("malformed-") and kind != "raise":
+                ctx.violation(rec["signature"], rec["what"], p)
             return
         fd = _filter_dict(p["exprs"], p["types"])
         for api, kw in VARIANTS:
             for verify in (True, False):
                 kind, res = _call(t.tbl, api, kw, fd, p.get("columns"), verify)
-                print(api, kw, "verify" if verify else "noverify", kind, sorted(row_key(r) for r in res) if kind == "rows" else res)
-        print("recorded:", rec["what"])
+                got = sorted(row_key(r) for r in res) if kind == "rows" else res
+                mark = ""
+                if api == p["api"] and kw == p["kwargs"] and verify == p["verify_checksums"]:
+                    ctx.count_traces(1)
+                    still = kind != "rows" or got[:40] != p.get("expected")
+                    mark = "   <- recorded program: " + ("still deviates from the reference rows" if still else "now returns the reference rows")
+                    if still:
+                        ctx.violation(rec["signature"], rec["what"], p)
+                print(api, kw, "verify" if verify else "noverify", kind, got, mark)
+        print("reference rows:", p.get("expected"))
     finally:
         t.close()
